@@ -225,3 +225,27 @@ def append_data_args(x):
         else:
             n = a
     return ds, data, n
+
+
+def reeval(chk, prog, other, pred, as_rule, floor_name=None, floor=0, _cache={}):
+    """Re-evaluate rule instances decided under another property's module as instances of `as_rule` of this check.
+    A property that depends on machinery another property "owns" must evaluate the shared rules itself (round-2 lesson d).
+    pred(instance) selects; the instance key keeps the owning rule so that a finding is identified the same way everywhere."""
+    import importlib
+    ck = (id(prog), other, chk.tier)
+    if ck not in _cache:
+        mod = importlib.import_module("sa.rules." + other)
+        sub = type(chk)(other, chk.tier)
+        mod.run(sub, prog)
+        _cache[ck] = sub
+    sub = _cache[ck]
+    r = [i for i in sub.instances if pred(i)]
+    for i in r:
+        k = i.get("key", "ok")
+        k = k.split(":", 2)[2] if k.count(":") >= 2 and k.startswith(other + ":") else k
+        chk.check(i["ok"], as_rule, i["site"], "(%s/%s) %s" % (other, i["rule"], i["what"].split("\n")[0][:240]), "%s-%s:%s" % (other, i["rule"], k))
+    for f in sub.functions:
+        chk.functions.add(f)
+    if floor_name:
+        chk.floor(floor_name, len(r), floor)
+    return r
